@@ -67,6 +67,7 @@ type recOp struct {
 	Ms      int    `json:"ms"`
 	Back    int    `json:"back"` // wait: revision = current table revision - back
 	Q       bool   `json:"q"`
+	Idle    bool   `json:"idle"`
 }
 
 type recInject struct {
@@ -333,9 +334,14 @@ func runRecScript(t *testing.T, sc Script, log *Log) {
 		if err := h.Start(hlog, context.TODO()); err != nil {
 			panic(err)
 		}
+		// let the reconciler job start (it registers its change iterator first): user writes made
+		// before that are outside its contract
+		time.Sleep(time.Millisecond)
+		synctest.Wait()
+		st.start = time.Now()
 		log.Begin()
 		st.emit(Ev{"op": "config", "round": cfg.Round, "batch": cfg.Batch, "minb": cfg.MinB, "maxb": cfg.MaxB,
-			"limit": cfg.LimitMs, "prune": cfg.PruneMs})
+			"limit": cfg.LimitMs, "prune": cfg.PruneMs, "idle": cfg.Idle})
 		ctx, cancel := context.WithCancel(context.Background())
 		for _, raw := range sc.Ops[1:] {
 			var op recOp
